@@ -132,7 +132,7 @@ theorem grow_self {val : Val} {voters : List Id} {n : Nat} {s : Spec.State} {r r
   · have hty : Deliverable m.typ := by
       unfold Deliverable
       rcases hk with hk | hk <;> simp [hk]
-    have := sim_lower_term hinv h0 hlt hty h
+    have := sim_lower_term h0 hlt hty (by rcases hk with hk | hk <;> simp [hk]) h
     subst this
     exact ⟨LogGrow.refl _, rfl⟩
   · have hterm : m.term = r.term := Nat.le_antisymm hle hge
